@@ -679,7 +679,88 @@ def hasRetC : List Case → Bool
   | .mk _ _ body :: rest => hasRetL body || hasRetC rest
 end
 
+-- ------------------------------------------------------------------ the fragment of the soundness theorem
+
+/-- Iterables of `for` whose type is inferred and then compared with `List<Any>` (a variable, a
+call, a parenthesised expression): for list literals / `if` / `match` in that position the checker
+computes lossy types (known findings C16/any-from-checked-if, C16/error-from-checked-list). -/
+def iterOK : TExpr → Bool
+  | .var _ | .call _ _ | .paren _ => true
+  | _ => false
+
+mutual
+/-- The fragment of `check_sound_fragment`, indexed by a bound on the nesting depth (so that all
+proofs are inductions on a natural number). `let` only as a block statement. -/
+def okE (P : Program) : Nat → TExpr → Bool
+  | 0, _ => false
+  | d + 1, e =>
+    match e with
+    | .int _ | .str _ | .retUnit | .brk | .cont => true
+    | .var x => (isValueGlobal x && (findFun P x).isNone) || !(isGlobalName P x)
+    | .paren e | .ret e | .assign _ e | .update _ _ e => okE P d e
+    | .binop _ l r => okE P d l && okE P d r
+    | .letE _ _ _ => false
+    | .ifE c thn _ els => okE P d c && okL P d thn && okL P d els
+    | .whileE c body => okE P d c && okL P d body
+    | .forE _ e body => iterOK e && okE P d e && okL P d body
+    | .matchE s cases => okE P d s && okC P d cases
+    | .list items | .tuple items | .call _ items => okA P d items
+def okL (P : Program) : Nat → List TExpr → Bool
+  | 0, _ => false
+  | _ + 1, [] => true
+  | d + 1, e :: rest =>
+    (match e with
+     | .letE _ _ e' => okE P d e'
+     | _ => okE P d e) && okL P d rest
+def okA (P : Program) : Nat → List TExpr → Bool
+  | 0, _ => false
+  | _ + 1, [] => true
+  | d + 1, e :: rest => okE P d e && okA P d rest
+def okC (P : Program) : Nat → List Case → Bool
+  | 0, _ => false
+  | _ + 1, [] => true
+  | d + 1, .mk v payload body :: rest => (v != "_" || payload.isNone) && okL P d body && okC P d rest
+end
+
+/-- A block statement: a `let`, or an expression of the fragment. -/
+def okS (P : Program) (d : Nat) (e : TExpr) : Bool :=
+  match e with
+  | .letE _ _ e' => okE P d e'
+  | _ => okE P d e
+
+
+mutual
+/-- Number of nodes (a sufficient nesting-depth bound for `okE`). -/
+def sizeE : TExpr → Nat
+  | .int _ | .str _ | .var _ | .retUnit | .brk | .cont => 1
+  | .paren e | .ret e | .letE _ _ e | .assign _ e | .update _ _ e => sizeE e + 1
+  | .binop _ l r => sizeE l + sizeE r + 1
+  | .ifE c thn _ els => sizeE c + sizeL thn + sizeL els + 1
+  | .whileE c body | .forE _ c body => sizeE c + sizeL body + 1
+  | .matchE s cases => sizeE s + sizeC cases + 1
+  | .list items | .tuple items | .call _ items => sizeL items + 1
+def sizeL : List TExpr → Nat
+  | [] => 1
+  | e :: rest => sizeE e + sizeL rest + 1
+def sizeC : List Case → Nat
+  | [] => 1
+  | .mk _ _ body :: rest => sizeL body + sizeC rest + 1
+end
+
+def progSize (P : Program) : Nat :=
+  (P.funs.map (fun f => sizeL f.body)).foldl (· + ·) (sizeL P.top) + 1
+
+/-- Membership of a whole program in the fragment of `check_sound_fragment` (depth bound `D`):
+function bodies are blocks of the fragment, toplevel expressions are block statements. -/
+def fragmentD (P : Program) (D : Nat) : Bool :=
+  P.funs.all (fun f => okL P D f.body) && P.top.all (fun e => okS P D e)
+
+/-- The hypothesis of `check_sound_fragment`. Every function is fully annotated by construction
+of `FunDef`; `fragmentD` is what the proof uses; the remaining conjuncts (distinct, non-reserved
+names, no toplevel `return`, …) are the conditions under which M8 / the reference semantics were
+transcribed and are tied to the implementation by the correspondence. -/
 def fullyAnnotated (P : Program) : Bool :=
+  fragmentD P (progSize P) &&
   distinctNames (P.funs.map (·.name)) &&
   P.funs.all (fragFun P) &&
   fragL P P.top && !(hasRetL P.top)
